@@ -32,7 +32,7 @@ META = {
     },
     "exhaustive": {"quick": False, "thorough": False},
     "assumptions": ["no TeX engine: draw is driven with a stub measurer, `draw ... pdf` cannot be executed", "exact O#/S# numbering is required for binary inputs; for multifurcating inputs only distinct, non-empty names with given names untouched"],
-    "timeout": {"quick": 900, "thorough": 7200},
+    "timeout": {"quick": 420, "thorough": 7200},
 }
 
 
